@@ -108,7 +108,7 @@ func checkC19(ctx *Ctx) *Result {
 						sig, _ := info.Defs[fd.Name].Type().(*types.Signature)
 						if sig == nil || sig.Params().Len() != 2 || sig.Results().Len() != 1 ||
 							types.TypeString(sig.Params().At(0).Type(), nil) != "error" ||
-							types.TypeString(sig.Params().At(1).Type(), nil) != "func(error) bool" ||
+							types.TypeString(sig.Params().At(1).Type().Underlying(), nil) != "func(error) bool" ||
 							types.TypeString(sig.Results().At(0).Type(), nil) != "bool" {
 							continue
 						}
